@@ -985,7 +985,9 @@ class ParserField:
         type = self.output_type
         if not type:
             return value
-        trans = context.transformer
+        # isolate the conversion like parse_value() does: what it records on its way to failing
+        # must not stay in the caller's context next to the error reported for this field
+        trans = context.enter(self.name).transformer
         try:
             return trans(value, type)  # noqa
         except Exception as e:
